@@ -116,6 +116,10 @@ func (c *conn) rangeAndClean(f func(index int, resultChan chan data)) {
 
 func (c *conn) Transport(ctx context.Context, request []byte) (response []byte, err error) {
 	index := int(atomic.AddInt32(&c.counter, 1) & 0x7fffffff)
+	// the sender goroutine may still be writing this request after the call has been abandoned
+	// (context ended) and the caller has its slice back: it gets a copy of its own
+	body := make([]byte, len(request))
+	copy(body, request)
 	resultChan := make(chan data, 1)
 	verifYield("before-store", c, index)
 	c.store(index, resultChan)
@@ -127,7 +131,7 @@ func (c *conn) Transport(ctx context.Context, request []byte) (response []byte, 
 		return nil, ctx.Err()
 	case c.requests <- data{
 		Index: index,
-		Body:  request,
+		Body:  body,
 	}:
 	case res := <-resultChan:
 		return res.Body, res.Error
